@@ -75,3 +75,26 @@ pub fn json_str(s: &str) -> String {
     o.push('"'); o
 }
 pub fn json_map(m: &BTreeMap<String, u64>) -> String { format!("{{{}}}", m.iter().map(|(k, v)| format!("{}:{}", json_str(k), v)).collect::<Vec<_>>().join(",")) }
+
+/// all sequences of length `len` over `alphabet`
+pub fn all_seqs<T: Clone>(alphabet: &[T], len: usize) -> Vec<Vec<T>> {
+    let mut out = vec![vec![]];
+    for _ in 0..len { let mut nxt = Vec::with_capacity(out.len() * alphabet.len()); for s in &out { for a in alphabet { let mut t = s.clone(); t.push(a.clone()); nxt.push(t); } } out = nxt; }
+    out
+}
+/// `dispatch_n!(n, f, (args); 1 2 3)` calls `f::<N>(args)` for the run-time width n.
+#[macro_export]
+macro_rules! dispatch_n {
+    ($n:expr, $f:ident, $args:tt; $($k:literal)*) => { match $n { $($k => $f::<$k> $args,)* _ => return Outcome::Skip("width-not-instantiated") } };
+}
+pub struct Prop { pub header: &'static str, pub generate: fn(&str, &mut Rng) -> Vec<Spec>, pub exec: fn(&Spec, &mut Stats) -> Outcome }
+/// exact value of a finite f64
+pub fn f64_exact(v: f64) -> Option<crate::rat::Rat> {
+    if !v.is_finite() { return None; }
+    if v == 0.0 { return Some(crate::rat::Rat::int(0)); }
+    let bits = v.to_bits(); let sign = if bits >> 63 == 1 { -1i128 } else { 1 };
+    let e = ((bits >> 52) & 0x7ff) as i64; let frac = (bits & ((1u64 << 52) - 1)) as i128;
+    let (m, ex) = if e == 0 { (frac, -1074) } else { (frac | (1i128 << 52), e - 1075) };
+    if ex >= 0 { if ex > 60 { return None; } Some(crate::rat::Rat::new(sign * m * (1i128 << ex), 1)) }
+    else { if -ex > 120 { return None; } let mut m = m; let mut k = -ex; while k > 0 && m % 2 == 0 { m /= 2; k -= 1; } if k > 100 { return None; } Some(crate::rat::Rat::new(sign * m, 1i128 << k)) }
+}
